@@ -145,7 +145,7 @@ def corr(ctx, ncases=None, oracle_only=False):
     res.rule = ('random PBM grids (1-400 classes) x distribution kind x growth-field kind x nucleation radius position x dt; '
                 'non-trivial = populated distribution and non-zero growth field; distinct = (kind tuple, n, seed)')
     N = ncases or ctx.n(1500, 40000)
-    cases, impl, lines = [], [], []
+    cases, impl, lines, extra = [], [], [], []
     for _ in range(N):
         c = gen_case(ctx.rng)
         pbm, psd, flux, nucRate, nucRad = build(c)
@@ -173,6 +173,12 @@ def corr(ctx, ncases=None, oracle_only=False):
         lines.append('pbm.dxdt %s %s %s %s %s' % (enc_list(b), enc_list(flux), enc_list(psd), f2b(nucRate), f2b(nucRad)))
         lines.append('pbm.correct %s %s %s %s %s %s' % (enc_list(b), enc_list(flux), enc_list(psd), f2b(nucRate), f2b(nucRad), f2b(dt)))
         lines.append('pbm.getdt %s %s %s %d %s %s' % (enc_list(b), enc_list(flux), enc_list(psd), dissIdx, f2b(currDT), f2b(c['ratio'])))
+        # dissolution index with a non-trivial lower bound as well (the caller passes RdrivingForceIndex)
+        minIdx = int(np.random.default_rng(c['s'] + 7).integers(0, max(1, n // 3) + 1))
+        pbm.PSD = psd.copy()
+        dI = int(pbm.getDissolutionIndex(c['maxdiss'] if c['maxdiss'] > 0 else 1e-3, minIdx))
+        extra.append((minIdx, dI, pbm.PSDsize.copy()))
+        lines.append('pbm.dissidx %s %s %s %d' % (enc_list(psd), enc_list(pbm.PSDsize), f2b(c['maxdiss'] if c['maxdiss'] > 0 else 1e-3), minIdx))
     model = vlib.run_driver(PROP, lines) if (ctx.driver_ok and not oracle_only) else None
 
     for k, ((c, b, psd, flux, nucRate, nucRad, dissIdx, dt, currDT), (d, nf, d_nuconly, dtlim, dc, nfc, argmod)) in enumerate(zip(cases, impl)):
@@ -187,7 +193,7 @@ def corr(ctx, ncases=None, oracle_only=False):
         scale = float(np.abs(nf).max()) + abs(nucRate)
         # ---------------- correspondence
         if model is not None:
-            t = Toks(model[3 * k])
+            t = Toks(model[4 * k])
             if not t.ok:
                 res.disagree('pbm.dxdt model error ' + str(t.err), desc, 'ok', t.err)
             else:
@@ -199,7 +205,7 @@ def corr(ctx, ncases=None, oracle_only=False):
                     res.disagree('netFlux', desc, nf.tolist(), mnf)
                 if not vlib.all_close(d, md, 1e-9, scale * 1e-3):
                     res.disagree('dXdt', desc, np.asarray(d).tolist(), md)
-            t = Toks(model[3 * k + 1])
+            t = Toks(model[4 * k + 1])
             if not t.ok:
                 res.disagree('pbm.correct model error', desc, 'ok', t.err)
             else:
@@ -208,10 +214,30 @@ def corr(ctx, ncases=None, oracle_only=False):
                     res.disagree('corrected netFlux', desc, nfc.tolist(), mnfc)
                 if not vlib.all_close(dc, mdc, 1e-9, scale * 1e-3):
                     res.disagree('corrected dXdt', desc, np.asarray(dc).tolist(), mdc)
-            t = Toks(model[3 * k + 2])
+            t = Toks(model[4 * k + 2])
             if not t.ok or not close(dtlim, t.flt(), 1e-12):
-                res.disagree('getDTEuler', desc, dtlim, model[3 * k + 2])
+                res.disagree('getDTEuler', desc, dtlim, model[4 * k + 2])
+            t = Toks(model[4 * k + 3]); minIdx, dI, size = extra[k]
+            md = c['maxdiss'] if c['maxdiss'] > 0 else 1e-3
+            cum = np.cumsum(psd * size ** 3); tot = float(np.sum(psd * size ** 3))
+            tie = tot > 0 and np.any(np.abs(cum - md * tot) <= 1e-9 * tot)
+            if tie:
+                res.near_tie_skipped += 1
+            elif not t.ok or t.nat() != dI:
+                res.disagree('getDissolutionIndex', desc, dI, model[4 * k + 3])
         # ---------------- direct oracle (independent scalar reference)
+        minIdx, dI, size = extra[k]
+        md = c['maxdiss'] if c['maxdiss'] > 0 else 1e-3
+        vol = [float(a) * float(r) ** 3 for a, r in zip(psd, size)]
+        tot = math.fsum(vol)
+        if dI < minIdx:
+            res.violate('dissolution-index-below-min', 'dissolution index below the index of the last unstable class', desc, dI, minIdx)
+        elif dI > minIdx:
+            below = math.fsum(vol[:dI])          # volume of the classes that the step limit ignores
+            if below > md * tot * (1 + 1e-9) + 1e-300:
+                res.violate('dissolution-index-ignores-too-much', 'classes below the dissolution index hold more than maxDissolution of the '
+                            'particle volume', desc, below / tot if tot else below, md)
+            res.count('dissidx>min')
         rnf = ref_netflux(b, flux, psd)
         if argmod:
             res.violate('pbm-call-modifies-arguments', 'a PBM transport call modified its psd/flux argument', desc)
